@@ -66,9 +66,9 @@ for _n, _f in (("warned", _warned), ("mode", _mode), ("codes", _codes), ("nrows"
 
 UNSEEN = "exists(0, nrows(x), lambda r: codes(x, self.levels)[r] == -1)"
 M = "self.contrast_matrix.matrix"
-for cls, extra in (("formulae.terms.variable.Variable", {}), ("formulae.terms.call.Call", {})):
-    REG.declare_class(cls, {"levels": "list[any]", "contrast_matrix": "formulae.categorical.ContrastMatrix", "name": "str",
-                            "kind": "str?", "spans_intercept": "bool", "is_response": "bool"})
+for cls, extra in (("formulae.terms.variable.Variable", {"reference": "any"}), ("formulae.terms.call.Call", {"call": "any"})):
+    REG.declare_class(cls, dict({"levels": "list[any]", "contrast_matrix": "formulae.categorical.ContrastMatrix", "name": "str",
+                                 "kind": "str?", "spans_intercept": "bool", "is_response": "bool"}, **extra))
     REG.contract(cls + ".eval_new_data_categoric", params={"x": "any"}, returns="arr2", tags=["C10", "C06", "C07"],
                  requires=[f"{M}.shape[0] == len(self.levels)"],
                  raises={"ValueError": f"({UNSEEN}) and mode() == 'error'"},
@@ -204,3 +204,20 @@ REG.contract(CL + ".eval_categoric", params={"x": "series", "spans_intercept": "
                       "forall(0, nrows(x), lambda r: forall(0, len(self.levels) - 1, lambda j: self.value[r, j] == " + IND.format(lvl="self.levels[j + 1]") + ")))",
                       "self.spans_intercept == spans_intercept"])
 FUNCTIONS += [CL + ".eval_categoric"]
+
+
+# ---- identity of the factors of a term (C02 / C12): two Call components are one factor exactly when their lazy call
+# ---- objects are equal (NOT when their printed names coincide - the name drops grouping parentheses); two Variable
+# ---- components when kind, name and reference level agree; equal components hash equally
+REG.contract("formulae.terms.call.Call.__eq__", params={"other": "formulae.terms.call.Call"}, returns="bool", tags=["C02", "C12"],
+             ensures=["result == (self.call == other.call)"])
+REG.contract("formulae.terms.call.Call.__hash__", returns="int", tags=["C02", "C12"], ensures=["result == hash(self.call)"])
+REG.contract("formulae.terms.variable.Variable.__eq__", params={"other": "formulae.terms.variable.Variable"}, returns="bool", tags=["C02"],
+             ensures=["result == (self.kind == other.kind and self.name == other.name and self.reference == other.reference)"])
+REG.contract("formulae.terms.variable.Variable.__hash__", returns="int", tags=["C02"],
+             ensures=["result == hash((self.kind, self.name, self.reference))"])
+IDENTITY = ["formulae.terms.call.Call.__eq__", "formulae.terms.call.Call.__hash__",
+            "formulae.terms.variable.Variable.__eq__", "formulae.terms.variable.Variable.__hash__"]
+FUNCTIONS += IDENTITY
+ASSUMPTIONS += ["== and hash() of the opaque values held in Call.call / Variable.reference are uninterpreted (LazyCall.__eq__ is proved "
+                "separately in call_resolver_c; hash consistency of LazyCall/LazyOperator is exercised by the bounded tier only)"]
